@@ -2498,13 +2498,17 @@ package sdf
 //@   witnesses 0 j - 1, s.num.Y - 1, s.num.Z - 1
 //@   invariant 0 0 <= j && j <= s.num.X
 //@   invariant 0 exists wj int, wk int, wl int :: (j == 0 && d == math.MaxFloat64) || (0 <= wj && wj < j && 0 <= wk && wk < s.num.Y && 0 <= wl && wl < s.num.Z && d == s.sdf.Evaluate(off3(s, p, wj, wk, wl)))
+//@   invariant 0 forall a int, b int, c int :: 0 <= a && a < j && 0 <= b && b < s.num.Y && 0 <= c && c < s.num.Z ==> d <= s.sdf.Evaluate(off3(s, p, a, b, c))
 //@   witnesses 1 j, k - 1, s.num.Z - 1
 //@   invariant 1 0 <= k && k <= s.num.Y && 0 <= j && j < s.num.X
 //@   invariant 1 exists wj int, wk int, wl int :: (j == 0 && k == 0 && d == math.MaxFloat64) || (0 <= wj && wj <= j && 0 <= wk && wk < s.num.Y && 0 <= wl && wl < s.num.Z && (wj < j || wk < k) && d == s.sdf.Evaluate(off3(s, p, wj, wk, wl)))
+//@   invariant 1 forall a int, b int, c int :: 0 <= a && 0 <= b && b < s.num.Y && 0 <= c && c < s.num.Z && (a < j || (a == j && b < k)) ==> d <= s.sdf.Evaluate(off3(s, p, a, b, c))
 //@   witnesses 2 j, k, l - 1
 //@   invariant 2 0 <= l && l <= s.num.Z && 0 <= k && k < s.num.Y && 0 <= j && j < s.num.X
 //@   invariant 2 exists wj int, wk int, wl int :: (j == 0 && k == 0 && l == 0 && d == math.MaxFloat64) || (0 <= wj && wj <= j && 0 <= wk && wk < s.num.Y && 0 <= wl && wl < s.num.Z && (wj < j || wk < k || (wk == k && wl < l)) && d == s.sdf.Evaluate(off3(s, p, wj, wk, wl)))
+//@   invariant 2 forall a int, b int, c int :: 0 <= a && 0 <= b && b < s.num.Y && 0 <= c && c < s.num.Z && (a < j || (a == j && (b < k || (b == k && c < l)))) ==> d <= s.sdf.Evaluate(off3(s, p, a, b, c))
 //@   ensures [the-result-is-the-operand-evaluated-at-the-point-moved-back-by-one-grid-offset] exists wj int, wk int, wl int :: 0 <= wj && wj < s.num.X && 0 <= wk && wk < s.num.Y && 0 <= wl && wl < s.num.Z && r == s.sdf.Evaluate(off3(s, p, wj, wk, wl))
+//@   ensures [and-no-copy-is-nearer] forall a int, b int, c int :: 0 <= a && a < s.num.X && 0 <= b && b < s.num.Y && 0 <= c && c < s.num.Z ==> r <= s.sdf.Evaluate(off3(s, p, a, b, c))
 //@ end
 
 //@ func Array3D
@@ -2701,3 +2705,31 @@ package sdf
 //@   ensures [one-lipschitz-whatever-the-number-of-operands] !isnil(r) ==> sq(dp - dq) <= p.Sub(q).Length2()
 //@ end
 
+
+//@ func Array2D
+//@   property C03
+//@   id LIP
+//@   summarise ArraySDF2.Evaluate value-of-the-operand-at-one-grid-offset
+//@   forall p v2.Vec, q v2.Vec
+//@   requires forall a v2.Vec, b v2.Vec :: lip2(sdf, a, b)
+//@   requires forall a v2.Vec :: sdf.Evaluate(a) <= math.MaxFloat64
+//@   assert [moving-both-points-by-one-grid-offset-keeps-their-difference] forall a int, b int :: sq(sdf.Evaluate(p.Sub(v2.Vec{real(a)*step.X, real(b)*step.Y})) - sdf.Evaluate(q.Sub(v2.Vec{real(a)*step.X, real(b)*step.Y}))) <= p.Sub(q).Length2()
+//@   let dp = r.Evaluate(p)
+//@   let dq = r.Evaluate(q)
+//@   ensures [one-lipschitz-whatever-the-grid-size] !isnil(r) ==> sq(dp - dq) <= p.Sub(q).Length2()
+//@ end
+
+//@ func Array3D
+//@   property C03
+//@   id LIP
+//@   summarise ArraySDF3.Evaluate value-of-the-operand-at-one-grid-offset
+//@   forall p v3.Vec, q v3.Vec
+//@   requires forall a v3.Vec, b v3.Vec :: lip3(sdf, a, b)
+//@   requires forall a v3.Vec :: sdf.Evaluate(a) <= math.MaxFloat64
+//@   assert [moving-both-points-by-one-grid-offset-keeps-their-difference] forall a int, b int, c int :: sq(sdf.Evaluate(p.Sub(v3.Vec{real(a)*step.X, real(b)*step.Y, real(c)*step.Z})) - sdf.Evaluate(q.Sub(v3.Vec{real(a)*step.X, real(b)*step.Y, real(c)*step.Z}))) <= p.Sub(q).Length2()
+//@   let dp = r.Evaluate(p)
+//@   let dq = r.Evaluate(q)
+//@   let dist2 = p.Sub(q).Length2()
+//@   generalize dist2
+//@   ensures [one-lipschitz-whatever-the-grid-size] !isnil(r) ==> sq(dp - dq) <= p.Sub(q).Length2()
+//@ end
